@@ -29,9 +29,9 @@ Definition npint_fits (dt : dtype) (adv : bool) (raw : rawval) : bool :=
   | _, _ => true
   end.
 
-(* domain clause: not a one-element array (ndim > 0) assigned to one element of a BOOLEAN DOK
-   (NumPy takes its truth value; _setitem raises ValueError — implied by the value-ndim clause of
-   Model/DOK.v, stated separately to keep the two conversions syntactically equal) *)
+(* domain clause: not a one-element array (ndim > 0) assigned to one ELEMENT (one integer per
+   axis) of a BOOLEAN DOK: NumPy takes its truth value, _setitem raises ValueError (for the
+   integer dtypes NumPy refuses it too) *)
 Definition np_value_id (dt : dtype) (sh : shape) (k : key) (vsh : list Z) : bool :=
   match vsh with
   | [] => true
